@@ -198,16 +198,27 @@ theorem C17_bound_earlier_never (f : Path) (b : BodyScan) (avail : String → Bo
 /-- the former behaviour, as a fact about lists: the last binding of `x` is line 10, the first 3 -/
 example : lookupFirst [("x", 3), ("x", 10)] "x" = some 3 := by decide
 
-/-- which visited expression forms yield references (the "plain uses" of the statement): call
-    target and positional arguments, attribute base, operands, subscript value and index,
-    collection elements, awaited value — and nothing under a keyword argument -/
+/-- which expression forms yield references (the "plain uses" of the statement): call target,
+    positional AND keyword arguments, attribute base, operands, subscript value and index,
+    collection elements, awaited and yielded values, and the parts of the forms that only combine
+    sub-expressions (`group`: boolean operators, conditional expressions, set displays, starred
+    items, slices, f-strings) - every child of every modelled form; what the bridge leaves as
+    `other` (lambdas, comprehensions, assignment expressions: forms that bind names) is not entered -/
 theorem C17_visited_forms (n : String) (r r2 : Range) (e : Expr) :
     refsOfExpr (.call (.name n r) [] [] [] r2) = [⟨n, r.line, r.col, r.endCol⟩] ∧
     refsOfExpr (.call e [.name n r] [] [] r2) = refsOfExpr e ++ [⟨n, r.line, r.col, r.endCol⟩] ∧
     refsOfExpr (.attribute (.name n r) "a" r2) = [⟨n, r.line, r.col, r.endCol⟩] ∧
     refsOfExpr (.subscript (.name n r) e r2) = ⟨n, r.line, r.col, r.endCol⟩ :: refsOfExpr e ∧
     refsOfExpr (.list [.name n r] r2) = [⟨n, r.line, r.col, r.endCol⟩] ∧
-    refsOfExpr (.call e [] [some "k"] [.name n r] r2) = refsOfExpr e := by
+    refsOfExpr (.call e [] [some "k"] [.name n r] r2) = refsOfExpr e ++ [⟨n, r.line, r.col, r.endCol⟩] ∧
+    refsOfExpr (.group [e, .name n r] r2) = refsOfExpr e ++ [⟨n, r.line, r.col, r.endCol⟩] ∧
+    refsOfExpr (.yield [.name n r] r2) = [⟨n, r.line, r.col, r.endCol⟩] ∧
+    refsOfExpr (.other r2) = [] := by
+  simp [refsOfExpr, refsOfExprs]
+
+/-- before the repair a name under a keyword argument was not a reference -/
+example (n : String) (r r2 : Range) (e : Expr) :
+    refsOfExpr (.call e [] [some "k"] [.name n r] r2) ≠ refsOfExpr e := by
   simp [refsOfExpr, refsOfExprs]
 
 end PLS
